@@ -134,6 +134,12 @@ pub struct Scenario {
     pub clients: Vec<Vec<Exchange>>,
     pub seed: u64,
     pub pad: usize,
+    /// per client: hang up after that many exchanges (absent / larger than the script = never); the last
+    /// exchange before hanging up may be abandoned right after its calls were written (`abandon`)
+    #[serde(default)]
+    pub quit_after: Vec<usize>,
+    #[serde(default)]
+    pub abandon: Vec<bool>,
 }
 
 fn outcome(r: zlink_core::Result<Result<Rp, TErr>>) -> Value {
@@ -145,10 +151,30 @@ fn outcome(r: zlink_core::Result<Result<Rp, TErr>>) -> Value {
 }
 
 /// The script of one client, run sequentially on its connection.
-async fn client_task(c: u32, script: Vec<Exchange>, conn: &mut Connection<Sock>, pad: String) {
+async fn client_task(c: u32, script: Vec<Exchange>, conn: &mut Connection<Sock>, pad: String, quit_after: usize, abandon: bool) {
     let mut x = 0u32; // number of calls issued so far
     let mut counts: Vec<u32> = Vec::new();
-    for e in &script {
+    for (ei, e) in script.iter().enumerate() {
+        if ei >= quit_after {
+            break;
+        }
+        if abandon && ei + 1 == quit_after {
+            // the client writes the calls of this exchange and hangs up without reading any reply
+            for k in &e.calls {
+                x += 1;
+                ev(json!({"ev":"send","c":c,"x":x,"k":k.k,"n":k.n}));
+                let call: Call<M> = match k.k.as_str() {
+                    "plain" => Call::new(M::Echo { c, i: x, pad: pad.clone() }),
+                    "error" => Call::new(M::Fail { c, i: x }),
+                    "oneway" if k.n == 1 => Call::new(M::Fail { c, i: x }).set_oneway(true),
+                    "oneway" => Call::new(M::Note { c, i: x }).set_oneway(true),
+                    _ => Call::new(M::Sub { c, i: x, n: k.n }).set_more(true),
+                };
+                let _ = conn.send_call(&call).await;
+                counts.push(0);
+            }
+            break;
+        }
         if !e.chain {
             let k = &e.calls[0];
             x += 1;
@@ -240,7 +266,7 @@ async fn client_task(c: u32, script: Vec<Exchange>, conn: &mut Connection<Sock>,
             counts.extend(got);
         }
     }
-    ev(json!({"ev":"done","c":c,"counts":counts}));
+    ev(json!({"ev":"done","c":c,"counts":counts,"gone":quit_after < script.len() || (abandon && quit_after <= script.len()),"abandoned":abandon && quit_after <= script.len()}));
 }
 
 // ------------------------------------------------------------------ plumbing
@@ -329,15 +355,27 @@ pub fn run(sc: &Scenario, stats: &mut Stats) {
     let mut tasks: Vec<Option<Pin<Box<dyn Future<Output = ()> + '_>>>> = conns
         .iter_mut()
         .enumerate()
-        .map(|(c, conn)| Some(Box::pin(client_task(c as u32 + 1, sc.clients[c].clone(), conn, pad.clone())) as Pin<Box<dyn Future<Output = ()> + '_>>))
+        .map(|(c, conn)| {
+            let q = sc.quit_after.get(c).copied().unwrap_or(usize::MAX);
+            let a = sc.abandon.get(c).copied().unwrap_or(false);
+            Some(Box::pin(client_task(c as u32 + 1, sc.clients[c].clone(), conn, pad.clone(), q, a)) as Pin<Box<dyn Future<Output = ()> + '_>>)
+        })
         .collect();
     let mut idle_rounds = 0u32;
     let mut rounds = 0u32;
     loop {
         rounds += 1;
-        if poll_once(server_fut.as_mut()).is_ready() {
-            ev(json!({"ev":"server_returned"}));
-            break;
+        // (a panic inside the server is data: the event has no explanation in the specification)
+        match std::panic::catch_unwind(std::panic::AssertUnwindSafe(|| poll_once(server_fut.as_mut()).is_ready())) {
+            Ok(false) => {}
+            Ok(true) => {
+                ev(json!({"ev":"server_returned"}));
+                break;
+            }
+            Err(_) => {
+                ev(json!({"ev":"server_panicked"}));
+                break;
+            }
         }
         let force = idle_rounds >= 3;
         let mut moved = false;
@@ -345,11 +383,22 @@ pub fn run(sc: &Scenario, stats: &mut Stats) {
             moved |= p.pump(&mut r, force);
         }
         let mut all_done = true;
-        for t in tasks.iter_mut() {
+        for (ci, t) in tasks.iter_mut().enumerate() {
             if let Some(f) = t {
                 if poll_once(f.as_mut()).is_ready() {
                     *t = None;
                     moved = true;
+                    let q = sc.quit_after.get(ci).copied().unwrap_or(usize::MAX);
+                    if q < sc.clients[ci].len() || (q == sc.clients[ci].len() && sc.abandon.get(ci).copied().unwrap_or(false)) {
+                        // the client hangs up: what it wrote still arrives, then the server reads end-of-stream and
+                        // its writes to this client fail
+                        pipes[2 * ci].pump(&mut r, true);
+                        let sw = pipes[2 * ci].to.clone();
+                        sw.borrow_mut().closed = true;
+                        let calls = sw.borrow().write_calls;
+                        sw.borrow_mut().fail_write_at = Some(calls + 1);
+                        ev(json!({"ev":"hangup","c":ci + 1}));
+                    }
                 } else {
                     all_done = false;
                 }
@@ -393,5 +442,14 @@ pub fn gen(r: &mut Rng, sid: String) -> Scenario {
                 .collect()
         })
         .collect();
-    Scenario { sid, clients, seed: r.next(), pad: *r.pick(&[0usize, 3, 200, 300, 700]) }
+    let clients: Vec<Vec<Exchange>> = clients;
+    // now and then one client (never all of them) hangs up early, possibly leaving calls unanswered
+    let mut quit_after = vec![usize::MAX; clients.len()];
+    let mut abandon = vec![false; clients.len()];
+    if clients.len() >= 2 && r.chance(1, 3) {
+        let c = r.below(clients.len() as u64) as usize;
+        quit_after[c] = r.range(1, clients[c].len());
+        abandon[c] = r.chance(1, 2);
+    }
+    Scenario { sid, clients, seed: r.next(), pad: *r.pick(&[0usize, 3, 200, 300, 700]), quit_after, abandon }
 }
